@@ -2,6 +2,7 @@ package rules
 
 import (
 	"fmt"
+	"go/token"
 	"sort"
 	"strings"
 
@@ -13,13 +14,14 @@ import (
 func init() { Registry["C12"] = checkC12 }
 
 func checkC12(p *core.Prog, r *core.Report) {
-	r.Explanation = "Decides structural necessary conditions of election safety on the acceptor side: (R1) every store to the acceptor's accepted number (ArbiterVoter.proposalId) in the proposal handlers happens under the voter mutex on a path that tested new > accepted, new > committed and 'no commit outstanding' (proposalHost empty); every store to the committed number (commitId) in the commit handlers happens under the mutex on a path that tested 'this is the accepted proposal' and new > committed; all other stores to the two numbers are listed lifecycle sites (constructor, load from saved metadata, configuration, leaving the set, the candidate's own bookkeeping after a majority); (R3) the candidate's vote / proposal / commit rounds succeed only with at least len(members)/2+1 answers; (R4) in DoVote a reply becomes the selected candidate only after the eligibility filter (data member, non-zero weight) for that reply, and replaces the selection only on newer log / greater weight / greater host; (R5) the proposal handlers refuse before accepting when the member's own log is newer (CompareAofId(own, proposed) > 0 for a voting data member). (R6) the acceptor's outstanding-commit marker (proposalHost) is cleared only at a closed list of points. NOT decided: any interleaving of two candidates, message loss, that at most one winner emerges, persistence of the committed number across a restart (the candidate-side stores and the save points are listed, not proven), kill -9 of a real cluster."
+	r.Explanation = "Decides structural necessary conditions of election safety on the acceptor side: (R1) every store to the acceptor's accepted number (ArbiterVoter.proposalId) in the proposal handlers happens under the voter mutex on a path that tested new > accepted, new > committed and 'no commit outstanding' (proposalHost empty); every store to the committed number (commitId) in the commit handlers happens under the mutex on a path that tested 'this is the accepted proposal' and new > committed; all other stores to the two numbers are listed lifecycle sites (constructor, load from saved metadata, configuration, leaving the set, the candidate's own bookkeeping after a majority); (R3) the candidate's vote / proposal / commit rounds succeed only with at least len(members)/2+1 answers; (R4) in DoVote a reply becomes the selected candidate only after the eligibility filter (data member, non-zero weight) for that reply, and replaces the selection only on newer log / greater weight / greater host; (R5) the proposal handlers refuse before accepting when the member's own log is newer (CompareAofId(own, proposed) > 0 for a voting data member). (R6) the acceptor's outstanding-commit marker (proposalHost) is cleared only at a closed list of points. (R7) the comparator of log positions weighs the id bytes the way the log writes them (file index major, record number minor). NOT decided: any interleaving of two candidates, message loss, that at most one winner emerges, persistence of the committed number across a restart (the candidate-side stores and the save points are listed, not proven), kill -9 of a real cluster."
 	r.Assumptions = []string{"Go type checker, go/ssa and VTA call graph are correct for /repo", "the voter mutex serialises the acceptor handlers"}
 	c12R1(p, r)
 	c12R3(p, r)
 	c12R4(p, r)
 	c12R5(p, r)
 	c12R6(p, r)
+	c12R7(p, r)
 }
 
 // lifecycle stores of the two numbers outside the acceptor handlers
@@ -348,6 +350,337 @@ func c12R6(p *core.Prog, r *core.Report) {
 					r.Violate(rule, key, p.InstrPos(ins), "the outstanding-commit marker is cleared here: a member that already accepted another candidate's commit forgets it and can accept (or gather) a second commit majority - two leaders", nil)
 				}
 			}
+		}
+	}
+}
+
+// c12R7: writer/reader table agreement for the log position. The log writes a
+// position as (record number in the file, file index) into bytes 0..7 of the
+// 16-byte id (AofLock.GetAofId); rotation restarts the record number at 0 and
+// increments the file index, so the index is the major key of "newer". The
+// election's comparator must weigh the bytes the same way.
+func c12R7(p *core.Prog, r *core.Report) {
+	const rule = "C12/R7"
+	r.Rule(rule, "the election's log-position comparator weighs the id bytes the way the log writes them: file index major, record number minor, bytes of each in the written order", 2)
+	get := mustFunc(p, r, "server.(*AofLock).GetAofId")
+	cur := mustFunc(p, r, "server.(*Aof).GetCurrentAofID")
+	cmp := mustFunc(p, r, "server.(*ArbiterManager).CompareAofId")
+	if get == nil || cur == nil || cmp == nil {
+		return
+	}
+	// (1) writer table: id byte -> (field of AofLock, shift)
+	type fb struct {
+		field string
+		shift int64
+	}
+	writer := map[int64]fb{}
+	loadField := func(v ssa.Value) (string, bool) {
+		u, ok := v.(*ssa.UnOp)
+		if !ok {
+			return "", false
+		}
+		fa, ok := u.X.(*ssa.FieldAddr)
+		if !ok {
+			return "", false
+		}
+		return core.FieldKeyOf(fa.X.Type(), fa.Field).Field, true
+	}
+	for _, b := range get.Blocks {
+		for _, ins := range b.Instrs {
+			st, ok := ins.(*ssa.Store)
+			if !ok {
+				continue
+			}
+			ia, ok := st.Addr.(*ssa.IndexAddr)
+			if !ok {
+				continue
+			}
+			ic, ok := ia.Index.(*ssa.Const)
+			if !ok {
+				continue
+			}
+			cv, ok := st.Val.(*ssa.Convert)
+			if !ok {
+				continue
+			}
+			if f, ok := loadField(cv.X); ok {
+				writer[ic.Int64()] = fb{f, 0}
+			} else if bo, ok := cv.X.(*ssa.BinOp); ok && bo.Op == token.SHR {
+				if f, ok := loadField(bo.X); ok {
+					if k, ok := bo.Y.(*ssa.Const); ok {
+						writer[ic.Int64()] = fb{f, k.Int64()}
+					}
+				}
+			}
+		}
+	}
+	// (2) which AofLock field is the file index: GetCurrentAofID copies the log's two
+	// cursors into the id; the cursor that a method of Aof restarts at constant 0 while it
+	// stores a computed value into the other one is the minor key.
+	cursorOf := map[string]string{} // Aof field -> AofLock field
+	for _, b := range cur.Blocks {
+		for _, ins := range b.Instrs {
+			if st, ok := ins.(*ssa.Store); ok {
+				if fa, ok := st.Addr.(*ssa.FieldAddr); ok {
+					if src, ok := loadField(st.Val); ok {
+						cursorOf[src] = core.FieldKeyOf(fa.X.Type(), fa.Field).Field
+					}
+				}
+			}
+		}
+	}
+	major, minor, where := "", "", ""
+	for _, fn := range p.FuncsIn("server") {
+		if fn.Signature.Recv() == nil || recvName(fn) != "Aof" {
+			continue
+		}
+		zeroed, computed := map[string]bool{}, map[string]bool{}
+		for _, b := range fn.Blocks {
+			for _, ins := range b.Instrs {
+				st, ok := ins.(*ssa.Store)
+				if !ok {
+					continue
+				}
+				fa, ok := st.Addr.(*ssa.FieldAddr)
+				if !ok {
+					continue
+				}
+				f := core.FieldKeyOf(fa.X.Type(), fa.Field).Field
+				if _, ok := cursorOf[f]; !ok {
+					continue
+				}
+				if c, ok := st.Val.(*ssa.Const); ok {
+					if c.Value != nil && c.Int64() == 0 {
+						zeroed[f] = true
+					}
+				} else if _, isParam := st.Val.(*ssa.Parameter); !isParam {
+					if _, isLoad := loadField(st.Val); !isLoad {
+						computed[f] = true
+					}
+				}
+			}
+		}
+		for z := range zeroed {
+			for c := range computed {
+				if z != c && !zeroed[c] {
+					if major != "" && major != cursorOf[c] {
+						r.Fail("C12/R7: the log's methods disagree on which cursor restarts (%s vs %s)", where, core.FuncName(fn))
+						return
+					}
+					major, minor, where = cursorOf[c], cursorOf[z], core.FuncName(fn)
+				}
+			}
+		}
+	}
+	if major == "" || len(writer) < 8 {
+		r.Fail("C12/R7: could not establish the log position's layout (writer bytes %d, rotation site %q)", len(writer), where)
+		return
+	}
+	// (3) reader table per operand of the comparator: id byte -> weight in the compared word
+	params := cmp.Params
+	if cmp.Signature.Recv() != nil {
+		params = params[1:]
+	}
+	spill := map[ssa.Value]string{}
+	type scanUnit struct {
+		fn     *ssa.Function
+		rename map[string]string // parameter of fn -> operand of the comparator
+	}
+	units := []scanUnit{{cmp, nil}}
+	for _, b := range cmp.Blocks {
+		for _, ins := range b.Instrs {
+			if st, ok := ins.(*ssa.Store); ok {
+				if pr, ok := st.Val.(*ssa.Parameter); ok {
+					spill[st.Addr] = pr.Name()
+				}
+			}
+		}
+	}
+	// a helper that turns one operand into its position word (one level)
+	for _, b := range cmp.Blocks {
+		for _, ins := range b.Instrs {
+			ci, ok := ins.(ssa.CallInstruction)
+			if !ok {
+				continue
+			}
+			callee := ci.Common().StaticCallee()
+			if callee == nil || !core.InModule(callee) || callee.Blocks == nil || callee == cmp {
+				continue
+			}
+			rn := map[string]string{}
+			for i, a := range ci.Common().Args {
+				name := ""
+				if pr, ok := a.(*ssa.Parameter); ok {
+					name = pr.Name()
+				} else if u, ok := a.(*ssa.UnOp); ok {
+					name = spill[u.X]
+				}
+				if name != "" && i < len(callee.Params) {
+					rn[callee.Params[i].Name()] = name
+				}
+			}
+			if len(rn) == 0 {
+				continue
+			}
+			units = append(units, scanUnit{callee, rn})
+		}
+	}
+	rename := map[string]string{}
+	type term struct {
+		op    string
+		pos   int64
+		shift int64
+	}
+	var leaf func(v ssa.Value) (term, bool)
+	leaf = func(v ssa.Value) (term, bool) {
+		sh := int64(0)
+		if bo, ok := v.(*ssa.BinOp); ok && bo.Op == token.SHL {
+			k, ok := bo.Y.(*ssa.Const)
+			if !ok {
+				return term{}, false
+			}
+			sh = k.Int64()
+			v = bo.X
+		}
+		cv, ok := v.(*ssa.Convert)
+		if !ok {
+			return term{}, false
+		}
+		u, ok := cv.X.(*ssa.UnOp)
+		if !ok {
+			return term{}, false
+		}
+		ia, ok := u.X.(*ssa.IndexAddr)
+		if !ok {
+			return term{}, false
+		}
+		ic, ok := ia.Index.(*ssa.Const)
+		if !ok {
+			return term{}, false
+		}
+		name, ok := spill[ia.X]
+		if !ok {
+			if pr, isP := ia.X.(*ssa.Parameter); isP {
+				name, ok = pr.Name(), true
+			} else if al, isA := ia.X.(*ssa.Alloc); isA {
+				// the parameter's spill slot in a helper
+				for _, ref := range *al.Referrers() {
+					if st, isS := ref.(*ssa.Store); isS && st.Addr == ssa.Value(al) {
+						if pr, isP := st.Val.(*ssa.Parameter); isP {
+							name, ok = pr.Name(), true
+						}
+					}
+				}
+			}
+			if ok && rename != nil {
+				name, ok = rename[name]
+			}
+		}
+		if !ok {
+			return term{}, false
+		}
+		return term{name, ic.Int64(), sh}, true
+	}
+	var collect func(v ssa.Value, out *[]term) bool
+	collect = func(v ssa.Value, out *[]term) bool {
+		if bo, ok := v.(*ssa.BinOp); ok && bo.Op == token.OR {
+			return collect(bo.X, out) && collect(bo.Y, out)
+		}
+		t, ok := leaf(v)
+		if !ok {
+			return false
+		}
+		*out = append(*out, t)
+		return true
+	}
+	found := map[string]bool{}
+	type word struct {
+		bo     *ssa.BinOp
+		rename map[string]string
+	}
+	var words []word
+	for _, unit := range units {
+		for _, b := range unit.fn.Blocks {
+			for _, ins := range b.Instrs {
+				if bo, ok := ins.(*ssa.BinOp); ok && bo.Op == token.OR {
+					words = append(words, word{bo, unit.rename})
+				}
+			}
+		}
+	}
+	{
+		for _, w := range words {
+			bo := w.bo
+			rename = w.rename
+			root := true
+			for _, ref := range *bo.Referrers() {
+				if rb, ok := ref.(*ssa.BinOp); ok && rb.Op == token.OR {
+					root = false
+				}
+			}
+			if !root {
+				continue
+			}
+			var ts []term
+			if !collect(bo, &ts) || len(ts) == 0 {
+				continue
+			}
+			weight := map[int64]int64{}
+			op := ts[0].op
+			covers := false
+			for _, t := range ts {
+				if t.op != op {
+					op = ""
+				}
+				weight[t.pos] = t.shift
+				if w, ok := writer[t.pos]; ok && (w.field == major || w.field == minor) {
+					covers = true
+				}
+			}
+			if !covers || op == "" {
+				continue
+			}
+			found[op] = true
+			key := "server.(*ArbiterManager).CompareAofId: operand " + op
+			bad := ""
+			var poss []int64
+			for pi := range writer {
+				poss = append(poss, pi)
+			}
+			sort.Slice(poss, func(i, j int) bool { return poss[i] < poss[j] })
+			for _, pi := range poss {
+				for _, pj := range poss {
+					wi, wj := writer[pi], writer[pj]
+					if bad != "" {
+						break
+					}
+					if wi.field != major && wi.field != minor || wj.field != major && wj.field != minor {
+						continue
+					}
+					si, oki := weight[pi]
+					sj, okj := weight[pj]
+					if !oki || !okj {
+						bad = fmt.Sprintf("id byte %d (%s) does not take part in the comparison", map[bool]int64{true: pj, false: pi}[oki], map[bool]string{true: wj.field, false: wi.field}[oki])
+						continue
+					}
+					if wi.field == major && wj.field == minor && si <= sj {
+						bad = fmt.Sprintf("id byte %d holds %s>>%d (file index, restarted never) but weighs <<%d, not above byte %d holding %s>>%d (record number, restarted at 0 by %s) which weighs <<%d", pi, wi.field, wi.shift, si, pj, wj.field, wj.shift, where, sj)
+					}
+					if wi.field == wj.field && si-sj != wi.shift-wj.shift {
+						bad = fmt.Sprintf("bytes %d and %d of %s are written %d bits apart but compared %d bits apart", pi, pj, wi.field, wi.shift-wj.shift, si-sj)
+					}
+				}
+			}
+			if bad == "" {
+				r.Hold(rule, key, p.Pos(bo.Pos()), "file index ("+major+") above record number ("+minor+"), byte order as written by GetAofId")
+			} else {
+				r.Violate(rule, key, p.Pos(bo.Pos()), "the comparator does not order log positions the way the log assigns them: "+bad+"; a member that missed a file rotation is then taken for the newest log", nil)
+			}
+		}
+	}
+	for _, pr := range params {
+		if !found[pr.Name()] {
+			r.Fail("C12/R7: no byte-wise position word found for operand %s of CompareAofId (comparator form not recognised: not decided)", pr.Name())
 		}
 	}
 }
